@@ -169,7 +169,7 @@ def _diagram(spec, ctx):
         _stable(ctx, mech, np.asarray(stable), want, (len(xv),))
         # same object, same scan, other fixed conditions: nothing may be remembered from the first call
         if 'T' in fixed:
-            fixed2 = dict(fixed, T=fixed['T'] * 1.37)
+            fixed2 = dict(fixed, T=fixed['T'] * (0.73 if fixed['T'] > 2000 else 1.37))   # stays inside 100-4000 K
             res2 = ctx.call('D1', dict(mech, step='get_GoRT_1D', call='repeat'), pdg.get_GoRT_1D, x_name=xn,
                             x_values=list(xv), G_units=units, **fixed2)
             if res2 is not core.NOVALUE:
